@@ -28,6 +28,7 @@ const SEEDS: &[&str] = &[
     "struct Box[T] { v: T }\n\nimpl[T] Box[T] {\n    fn get(self: Box[T]) -> T { self.v }\n}\n\nfn id[T](x: T) -> T { x }\n\nfn main() {\n    let b = Box { v: 1 };\n    let c = id(b.get());\n    let d = id(true);\n    string_println(int32_to_string(c))\n}\n",
     "trait Show { fn show(Self) -> string; }\n\nimpl Show for int32 {\n    fn show(self: int32) -> string { int32_to_string(self) }\n}\n\nfn main() {\n    let x = 5;\n    let r = ref(x);\n    let _ = ref_set(r, 6);\n    let y = ref_get(r);\n    string_println(Show::show(y))\n}\n",
     "struct P { a: int32, b: bool }\nfn main() {\n    let p = P { a: 1, b: true };\n    let r = ref(p);\n    let z = if p.b { p.a } else { 0 };\n    let w = while false { () };\n    let arr = [1, 2, 3];\n    string_println(int32_to_string(z))\n}\n",
+    "struct P { a: int32, s: string }\nenum Kd { Aa, Bb(int32) }\nfn main() {\n\tlet p = P { a: 1, s: \"é\" };\n    let t = (\"añ→😀\", p.a, p.s); let u = t.1;\n\n    let k = (\"→\", Kd::Bb(2)); let w = p.a;\n    let _ = string_println(\"ü😀\" + p.s); let z = Kd::Aa;\n    ()\n}",
 ];
 
 struct Text {
@@ -439,6 +440,141 @@ fn mentioning_multi(msgs: &[String], name: &str) -> Vec<String> {
     v
 }
 
+// ---------------------------------------------------------------- line-ending twins
+
+/// a text that means the same program as `src` (same tokens, or one extra statement) written with
+/// other line terminators / blank lines / indentation, and where a position of `src` went
+struct Twin {
+    name: &'static str,
+    text: String,
+    /// tokens must be the same as in the original (false for the variant that adds a statement)
+    same_tokens: bool,
+    map: Box<dyn Fn(u32, u32) -> Option<(u32, u32)>>,
+}
+
+fn twins(src: &str, all: bool) -> Vec<Twin> {
+    let lines: Vec<&str> = src.split('\n').collect();
+    let mut out: Vec<Twin> = Vec::new();
+    let id = || Box::new(|l: u32, c: u32| Some((l, c))) as Box<dyn Fn(u32, u32) -> Option<(u32, u32)>>;
+    // CRLF everywhere
+    out.push(Twin { name: "crlf", text: lines.join("\r\n"), same_tokens: true, map: id() });
+    // k blank lines on top (LF and CRLF)
+    out.push(Twin { name: "blank-lines-top", text: format!("\n\n\n{}", src), same_tokens: true, map: Box::new(|l, c| Some((l + 3, c))) });
+    if !all {
+        return out;
+    }
+    // mixed: every other terminator is CRLF
+    let mut mixed = String::new();
+    for (i, l) in lines.iter().enumerate() {
+        mixed.push_str(l);
+        if i + 1 < lines.len() {
+            mixed.push_str(if i % 2 == 0 { "\r\n" } else { "\n" });
+        }
+    }
+    out.push(Twin { name: "mixed-lf-crlf", text: mixed, same_tokens: true, map: id() });
+    out.push(Twin { name: "blank-lines-top-crlf", text: format!("\r\n\r\n{}", lines.join("\r\n")), same_tokens: true, map: Box::new(|l, c| Some((l + 2, c))) });
+    // blank lines in the middle: before the last top-level `fn`
+    if let Some(j) = lines.iter().rposition(|l| l.starts_with("fn ")) {
+        if j > 0 {
+            let mut v: Vec<&str> = lines[..j].to_vec();
+            v.push("");
+            v.push("");
+            v.extend_from_slice(&lines[j..]);
+            let j = j as u32;
+            out.push(Twin { name: "blank-lines-middle", text: v.join("\n"), same_tokens: true, map: Box::new(move |l, c| Some((if l >= j { l + 2 } else { l }, c))) });
+        }
+    }
+    // a lone CR where a blank separates two tokens (not the first line)
+    {
+        let toks = lexer::lex(src);
+        let first_nl = src.find('\n').unwrap_or(src.len());
+        if let Some(t) = toks.iter().find(|t| t.kind.is_trivia() && t.text.starts_with(' ') && u32::from(t.range.start()) as usize > first_nl) {
+            let at = u32::from(t.range.start()) as usize;
+            let text = format!("{}\r{}", &src[..at], &src[at + 1..]);
+            out.push(Twin { name: "lone-cr", text, same_tokens: true, map: id() });
+        }
+    }
+    // last line without its newline
+    if src.ends_with('\n') && src.len() > 1 {
+        out.push(Twin { name: "no-final-newline", text: src[..src.len() - 1].to_string(), same_tokens: true, map: id() });
+    }
+    // tabs for the first indentation level
+    if lines.iter().any(|l| l.starts_with("    ")) {
+        let v: Vec<String> = lines.iter().map(|l| if let Some(r) = l.strip_prefix("    ") { format!("\t{}", r) } else { l.to_string() }).collect();
+        let indented: Vec<bool> = lines.iter().map(|l| l.starts_with("    ")).collect();
+        out.push(Twin {
+            name: "tab-indent",
+            text: v.join("\n"),
+            same_tokens: true,
+            map: Box::new(move |l, c| match indented.get(l as usize) {
+                Some(true) => if c >= 4 { Some((l, c - 3)) } else { None },
+                _ => Some((l, c)),
+            }),
+        });
+    }
+    // multi-byte characters on an earlier line
+    out.push(Twin { name: "multibyte-line-above", text: format!("// ünï → 😀 code\r\n{}", src), same_tokens: true, map: Box::new(|l, c| Some((l + 1, c))) });
+    // multi-byte characters earlier on the same line: an extra statement in front of a `let`
+    if let Some(j) = lines.iter().position(|l| l.starts_with("    let ")) {
+        let ins = "let _mb = \"é→😀\"; ";
+        let mut v: Vec<String> = lines.iter().map(|l| l.to_string()).collect();
+        v[j] = format!("    {}{}", ins, &lines[j][4..]);
+        let (j, k) = (j as u32, ins.len() as u32);
+        out.push(Twin { name: "multibyte-same-line", text: v.join("\n"), same_tokens: false, map: Box::new(move |l, c| if l == j { if c >= 4 { Some((l, c + k)) } else { None } } else { Some((l, c)) }) });
+    }
+    out
+}
+
+fn sig_tokens(src: &str) -> Vec<(lexer::TokenKind, String)> {
+    lexer::lex(src).iter().filter(|t| !t.kind.is_trivia()).map(|t| (t.kind, t.text.to_string())).collect()
+}
+
+/// what the three queries answer at one position, in a form that does not depend on byte offsets
+fn answers(th: usize, key: crash::Key, watch: &Watch, path: &Path, src: &str, l: u32, c: u32) -> [String; 3] {
+    let h = match watch.guarded(th, key, || query::hover_type(path, src, l, c)) {
+        Guarded::Done(Ok(s)) => format!("ok:{}", s.split_whitespace().collect::<Vec<_>>().join(" ")),
+        Guarded::Done(Err(e)) => format!("err:{}", e.chars().filter(|ch| !ch.is_ascii_digit()).take(40).collect::<String>()),
+        Guarded::Panic(p) => format!("panic:{}", crash::site_of(&p)),
+    };
+    let d = match watch.guarded(th, key, || query::dot_completions(path, src, l, c)) {
+        Guarded::Done(Some(items)) => items.iter().map(|i| format!("{}:{:?}", i.name, i.kind)).collect::<Vec<_>>().join(","),
+        Guarded::Done(None) => "-".into(),
+        Guarded::Panic(p) => format!("panic:{}", crash::site_of(&p)),
+    };
+    let k = match watch.guarded(th, key, || query::colon_colon_completions(path, src, l, c)) {
+        Guarded::Done(Some(items)) => items.iter().map(|i| format!("{}:{:?}", i.name, i.kind)).collect::<Vec<_>>().join(","),
+        Guarded::Done(None) => "-".into(),
+        Guarded::Panic(p) => format!("panic:{}", crash::site_of(&p)),
+    };
+    [h, d, k]
+}
+
+/// positions worth asking about: both ends of identifiers, right after `.` and `::`
+fn twin_positions(src: &str, rng: &mut Rng, cap: usize) -> Vec<(u32, u32)> {
+    let mut trig = Vec::new();
+    let mut idents = Vec::new();
+    for t in lexer::lex(src).iter() {
+        let (s, e) = (u32::from(t.range.start()), u32::from(t.range.end()));
+        if t.text == "." || t.text == "::" {
+            trig.push(e);
+        } else if t.text.chars().next().map(|c| c.is_ascii_alphabetic() || c == '_').unwrap_or(false) && !t.kind.is_trivia() {
+            idents.push(s);
+            idents.push(e);
+        }
+    }
+    let mut offs: Vec<u32> = trig;
+    let room = cap.saturating_sub(offs.len().min(cap / 2));
+    offs.truncate(cap / 2);
+    if idents.len() > room {
+        let total = idents.len();
+        idents.retain(|_| rng.below(total) < room);
+    }
+    offs.extend(idents);
+    offs.sort();
+    offs.dedup();
+    offs.into_iter().map(|o| line_col_of(src, o)).collect()
+}
+
 fn collect_tast(file: &tast::File) -> Vec<(u32, u32, &'static str, String)> {
     fn pat(p: &tast::Pat, out: &mut Vec<(u32, u32, &'static str, String)>) {
         match p {
@@ -535,7 +671,8 @@ struct Tally {
 }
 
 #[allow(clippy::too_many_arguments)]
-fn run_text(th: usize, ti: usize, t: &Text, dir: &Path, watch: &Watch, sh: &Shared, seed: u64, tie: bool, pos_cap: usize, hov_cap: usize) {
+#[allow(clippy::too_many_arguments)]
+fn run_text(th: usize, ti: usize, t: &Text, dir: &Path, watch: &Watch, sh: &Shared, seed: u64, tie: bool, pos_cap: usize, hov_cap: usize, twin_mode: u8) {
     let path = t.path.clone().unwrap_or_else(|| dir.join("main.gom"));
     let src = t.src.as_str();
     let mut rng = Rng::new(seed ^ (ti as u64).wrapping_mul(0x9E37));
@@ -800,13 +937,50 @@ fn run_text(th: usize, ti: usize, t: &Text, dir: &Path, watch: &Watch, sh: &Shar
             }
         }
     }
+    // line-ending twins: the same program with other terminators / blank lines / indentation must
+    // get the same answers at the corresponding positions (independent of the Lean model)
+    let mut twin_n = 0;
+    if twin_mode > 0 && t.path.is_none() && src.len() < 20_000 {
+        let base_tokens = sig_tokens(src);
+        let accepted = matches!(watch.guarded(th, [ti as u64, 0, 0, 12], || pipeline::compile(&path, src).is_ok()), Guarded::Done(true));
+        let poss2 = twin_positions(src, &mut rng, if hover_only { 24 } else { 60 });
+        let mut base_ans: Vec<[String; 3]> = Vec::new();
+        for (l, c) in &poss2 {
+            base_ans.push(answers(th, [ti as u64, *l as u64, *c as u64, 13], watch, &path, src, *l, *c));
+        }
+        for tw in twins(src, twin_mode > 1) {
+            if tw.same_tokens {
+                if sig_tokens(&tw.text) != base_tokens {
+                    continue;
+                }
+            } else {
+                let ok2 = matches!(watch.guarded(th, [ti as u64, 0, 0, 12], || pipeline::compile(&path, &tw.text).is_ok()), Guarded::Done(true));
+                if !accepted || !ok2 {
+                    continue;
+                }
+            }
+            for ((l, c), a) in poss2.iter().zip(base_ans.iter()) {
+                let Some((l2, c2)) = (tw.map)(*l, *c) else { continue };
+                let b = answers(th, [ti as u64, l2 as u64, c2 as u64, 14], watch, &path, &tw.text, l2, c2);
+                twin_n += 1;
+                for (qi, qn) in ["hover", "dot", "colon"].iter().enumerate() {
+                    if a[qi] != b[qi] {
+                        sh.push(format!(
+                            "TWN\t{}\t{}\t{}\t{}\t{}\t{}\t{}\t{}\t{}\t{}\t{}",
+                            t.id, tw.name, qn, l, c, l2, c2, esc_line(&a[qi]), esc_line(&b[qi]), if accepted { "accepted" } else { "rejected" }, esc_line(&tw.text)
+                        ));
+                    }
+                }
+            }
+        }
+    }
     if tie {
         let tk: Vec<String> = toks.iter().map(|t| format!("{}:{}", t.0, t.2 - t.1)).collect();
         sh.push(format!("OFF\t{}\t{}\t{}\t{}", t.id, hex(src), tk.join(" "), tie_pos.trim_end()));
     }
     let errs: Vec<String> = tally.hover_err.iter().map(|(k, v)| format!("{}={}", k.replace(' ', "_"), v)).collect();
     sh.push(format!(
-        "T\t{}\t{}\tbase={} len={} lines={} nonascii={} positions={} calls={} wasm_calls={} hover_ok={} dot_some={} dot_items={} cc_some={} cc_items={} hov_checked={} panics={}\t{}",
+        "T\t{}\t{}\tbase={} len={} lines={} nonascii={} positions={} calls={} wasm_calls={} hover_ok={} dot_some={} dot_items={} cc_some={} cc_items={} hov_checked={} twin_checked={} panics={}\t{}",
         t.id,
         t.kind,
         t.base,
@@ -822,6 +996,7 @@ fn run_text(th: usize, ti: usize, t: &Text, dir: &Path, watch: &Watch, sh: &Shar
         tally.cc_some,
         tally.cc_items,
         hov_n,
+        twin_n,
         tally.panics,
         errs.join(" ")
     ));
@@ -913,6 +1088,32 @@ pub fn main(args: &util::Args) {
         for (k, (id, src)) in late_programs().into_iter().enumerate() {
             texts.push(Text { id, kind: "full", src, base: nb + k, path: None });
         }
+        // the oracles themselves (hover = TAST, completion validity, position sweep) on CRLF / mixed texts
+        let mut k = 0;
+        for (bi, (id, src, path)) in bases.iter().enumerate() {
+            if path.is_some() || id.starts_with("soup") || !src.contains('\n') {
+                continue;
+            }
+            let lines: Vec<&str> = src.split('\n').collect();
+            texts.push(Text { id: format!("{}:crlf", id), kind: "full", src: lines.join("\r\n"), base: bi, path: None });
+            if id.starts_with("seed") || id.starts_with("corpus") {
+                let mut mixed = String::from("\r\n");
+                for (i, l) in lines.iter().enumerate() {
+                    mixed.push_str(l);
+                    if i + 1 < lines.len() {
+                        mixed.push_str(if i % 2 == 0 { "\r\n" } else { "\n" });
+                    }
+                }
+                texts.push(Text { id: format!("{}:mixed", id), kind: "full", src: mixed, base: bi, path: None });
+            }
+            k += 1;
+        }
+        for (j, (id, src)) in late_programs().into_iter().enumerate() {
+            if j % 4 == 0 {
+                texts.push(Text { id: format!("{}:crlf", id), kind: "full", src: src.replace('\n', "\r\n"), base: nb + j, path: None });
+            }
+        }
+        let _ = k;
         // hover agreement over EVERY pipeline corpus program, whatever its size (no position sweep)
         for d in util::corpus_pipeline_dirs() {
             if let Ok(s) = std::fs::read_to_string(d.join("main.gom")) {
@@ -958,7 +1159,16 @@ pub fn main(args: &util::Args) {
                     }
                     let t = &texts[i];
                     let tie = t.src.len() <= 400 || i % 7 == 0;
-                    run_text(th, i, t, &dir, &watch, &sh, seed, tie && t.kind != "hover-corpus", pos_cap, hov_cap);
+                    // every text that feeds the hover / completion oracles also runs as line-ending twins:
+                    // all variants for whole programs, CRLF + blank lines for mutations and for the
+                    // prefixes that end in a completion trigger
+                    let twin_mode = match t.kind {
+                        "full" => 2,
+                        "hover-corpus" => if t.src.len() > 4000 { 1 } else { 2 },
+                        "mutation" => 1,
+                        _ => if t.src.trim_end().ends_with('.') || t.src.trim_end().ends_with("::") { 1 } else { 0 },
+                    };
+                    run_text(th, i, t, &dir, &watch, &sh, seed, tie && t.kind != "hover-corpus", pos_cap, hov_cap, twin_mode);
                 }
             });
         }
